@@ -65,9 +65,13 @@ def run(ctx):
     add(h if not q else take(h, 700, ctx.seed))
     # 3. every interleaving of Browse, BrowseNext (any continuation point ever issued or a bogus one, with and without release)
     #    and effective / ineffective modifications up to the depth bound
-    h = gen("interleavings", dict(base, MaxDepth=3, Pages={1}, RefTypes={"HC"}) if q else dict(base, MaxDepth=4))
+    h = gen("interleavings", dict(base, MaxDepth=3, Pages={1}, RefTypes={"HC"}) if q else base)
     ninter = len(h)
-    add(take(h, 2000 if q else 40000, ctx.seed))
+    add(take(h, 2000 if q else 30000, ctx.seed))
+    if not q:
+        h = gen("interleavings4", dict(base, MaxDepth=4, Pages={1}, RefTypes={"HC"}, ModKinds={"AddNode", "AddRef", "DelNode", "DelRef"}))
+        ninter += len(h)
+        add(take(h, 30000, ctx.seed))
     # 4. longer random behaviours over the whole input space
     n = 150 if q else 2000
     seeds = {(int(ctx.seed) * 7919 + i * 104729) % 65537 for i in range(n)}
